@@ -319,6 +319,34 @@ class _RawConfigParser(configparser.RawConfigParser):
     super(_RawConfigParser, self).__init__(dict_type = _ConfigParserDict, default_section = "Variables", interpolation = configparser.ExtendedInterpolation())
     self._sections = collections.OrderedDict()
 
+  # [Variables] is the parser's default section so that ${NAME} placeholders resolve in every section.
+  # configparser also makes the keys of the default section appear as options of *every* section;
+  # the following overrides stop that leak: a section only lists, contains and returns its own keys
+  # (placeholder resolution is unaffected, it reads the defaults directly).
+  def options(self, section):
+    if section == self.default_section:
+      return list(self._defaults.keys())
+    try:
+      return list(self._sections[section].keys())
+    except KeyError:
+      raise configparser.NoSectionError(section)
+
+  def has_option(self, section, option):
+    if not section or section == self.default_section:
+      return self.optionxform(option) in self._defaults
+    if section not in self._sections:
+      return False
+    return self.optionxform(option) in self._sections[section]
+
+  def get(self, section, option, **kwargs):
+    if section != self.default_section and section in self._sections \
+      and not self.optionxform(option) in self._sections[section]:
+      # Would otherwise fall through to the value of a [Variables] entry of the same name.
+      if 'fallback' in kwargs and not kwargs['fallback'] is configparser._UNSET:
+        return kwargs['fallback']
+      raise configparser.NoOptionError(option, section)
+    return super(_RawConfigParser, self).get(section, option, **kwargs)
+
   def optionxform(self, option):
     # Normalise keys in the same way as _ConfigParserDict (which stores them). This makes the parser's
     # own duplicate-option check, has_option() and remove_option() agree with what is actually stored:
